@@ -33,7 +33,7 @@ ASSUMPTIONS = [
     'wall-clock window of the write call (only time-related oracle)',
 ]
 ANCHORS = ['Table.to_hdf5', 'Table.from_hdf5', 'general_formatter', 'vlen_list_of_str_formatter', 'general_parser', 'vlen_list_of_str_parser', 'load_table', 'parse_biom_table', 'save_table', 'biom_open']
-REQUIRED = ['files_with_user_block', 'reserved_category_user_formatter', 'tables_read_from_subgroups', 'ragged_metadata_cases', 'loader_load_table_handle', 'format_fs_writes', 'parse_fs_reads', 'loader_load_table', 'loader_parse_table', 'loader_from_hdf5',
+REQUIRED = ['numpy_scalar_metadata_categories', 'files_with_user_block', 'reserved_category_user_formatter', 'tables_read_from_subgroups', 'ragged_metadata_cases', 'loader_load_table_handle', 'format_fs_writes', 'parse_fs_reads', 'loader_load_table', 'loader_parse_table', 'loader_from_hdf5',
             'loader_from_hdf5_observation_view', 'files_written',
             'layout_csc_seen', 'layout_unsorted_seen', 'nonascii_ids',
             'slash_in_ids_or_categories', 'group_metadata_checked',
